@@ -267,6 +267,33 @@ func storedSpecials(m *big.Int) []*big.Int {
 		add(new(big.Int).Sub(m, t))
 	}
 
+	// runs of all-zero / all-one low limbs (a borrow or carry has to ripple through all of them), and a low limb within
+	// 2^256-m of the limb boundary above such a run
+	cc := new(big.Int).Sub(two256, m)
+	if cc.BitLen() <= 64 {
+		c64 := cc.Uint64()
+
+		for k := 1; k <= 3; k++ {
+			for _, upper := range []uint64{0x0123456789abcdef, 0x8000000000000001, 1} {
+				var z, o, b [4]uint64
+
+				for i := 0; i < 4; i++ {
+					switch {
+					case i < k:
+						z[i], o[i], b[i] = 0, ^uint64(0), ^uint64(0)
+					default:
+						z[i], o[i], b[i] = upper+uint64(i), upper+uint64(i), upper+uint64(i)
+					}
+				}
+
+				b[0] = ^uint64(0) - c64/2
+				add(oracle.FromLimbs(z))
+				add(oracle.FromLimbs(o))
+				add(oracle.FromLimbs(b))
+			}
+		}
+	}
+
 	// one limb above the modulus' own limb in that position while the value as a whole is below the modulus (in particular a
 	// low limb above m0): a limb-wise subtraction from the modulus borrows out of that limb, which a hand-written negation
 	// or comparison forgets
